@@ -7,7 +7,7 @@
 (*   term      : Int       constants >= 0, variables < 0                   *)
 (*   atom      : <<p, t1, ..., tn>>   predicate id p >= 0, arity n >= 0     *)
 (*   fact      : ground atom                                               *)
-(*   guard     : [o |-> "lt"|"le"|"eq"|"ne"|"pre"|"T"|"F"|"E", l |-> term, r |-> term]*)
+(*   guard     : [o |-> "lt"|"le"|"eq"|"ne"|"pre"|"re"|"T"|"F"|"E", l |-> term, r |-> term]*)
 (*               "E" = an expression that fails whenever it is evaluated   *)
 (*   rule      : [h |-> atom, b |-> <<atoms>>, g |-> <<guards>>]           *)
 (* The harness embeds constants into concrete Biscuit terms (order         *)
@@ -55,6 +55,7 @@ GuardVal(g, s) ==
                        IF CASE g.o = "lt" -> a < b [] g.o = "le" -> a <= b
                             [] g.o = "eq" -> a = b [] g.o = "ne" -> a # b
                             [] g.o = "pre" -> a <= b     \* l.starts_with(r): constant i is embedded as the string of (12 - i) letters "a"
+                            [] g.o = "re" -> a <= b      \* l.matches(r): the pattern "a"^(12-r) occurs in "a"^(12-l) iff l <= r
                        THEN "t" ELSE "f"
 
 \* guards are evaluated left to right; the first non-true one decides
